@@ -98,6 +98,7 @@ type Result struct {
 	MaxCounters map[string]int64      `json:"max_counters"`
 	Outcomes    map[string]int64      `json:"outcomes"`
 	Samples     []json.RawMessage     `json:"samples"`
+	AutoSamples []string              `json:"auto_samples"` // first non-trivial case keys (fallback samples)
 	Violations  map[string]*Violation `json:"violations"`
 	Capped      []string              `json:"capped"`
 	Notes       []string              `json:"notes"`
@@ -250,6 +251,12 @@ func (r *Run) NonTrivial(key string) {
 	if _, ok := r.ntSeen[h]; !ok {
 		r.ntSeen[h] = struct{}{}
 		r.res.NonTrivial++
+		if len(r.res.AutoSamples) < 3 {
+			if len(key) > 400 {
+				key = key[:400] + "…"
+			}
+			r.res.AutoSamples = append(r.res.AutoSamples, key)
+		}
 	}
 	r.mu.Unlock()
 }
